@@ -591,6 +591,19 @@ class Engine:
             return Closure(t[len('ZeroSized: '):], [])
         if t.startswith('ZeroSized: '):
             t = t[len('ZeroSized: '):]
+        # a named constant / static of the crate (`const WIDTH: usize = 256;`): its MIR body is in the dump
+        cf = self.prog.by_name.get(t) if self.prog is not None else None
+        if cf is None and self.prog is not None:
+            cf = self.prog.by_name.get(t.split('::')[-1])
+            if cf is not None and getattr(cf, 'literal', None) is None:
+                cf = None
+        if cf is not None and getattr(cf, 'literal', None) is not None:
+            return self.eval_const(fr, cf.literal)
+        if cf is not None and cf.kind in ('const', 'static') and not cf.args:
+            key = ('constitem', cf.name)
+            if key not in self.uni.memo:
+                self.uni.memo[key] = self._exec(cf, [])
+            return self.uni.memo[key]
         # unit-like enum constant, e.g. `SolverResult::True` never appears as const; fn items do
         return Opaque('fnitem', t)
 
